@@ -99,6 +99,7 @@ func runC05(c *CaseCtx) *CaseResult {
 	cc.Hist = HistCfg{DescendPct: 10, PopOnChild: true, InvalidPct: 2}
 	cc.Mon = MonCfg{TreeEvery: 1, DeepEvery: 151, RefEvery: 61, ReachEvery: 50, ColdAtCommit: true, DirtyEvery: 6}
 	cc.CommitEvery = 300
+	cc.DrainAtEnd = c.Case%3 != 0
 	cc.EvictEvery = c.Case / 2 % 2
 	// set-heavy churn: growth and shrink of elements in place (overflow / underflow after update)
 	cc.Phases = scalePhases(ops,
@@ -154,6 +155,7 @@ func runDeepCase(c *CaseCtx, kind string, r *rand.Rand) (*CaseResult, *World) {
 	cc.Mon = MonCfg{TreeEvery: 16, DeepEvery: ops / 3, RefEvery: ops / 3, ReachEvery: 500, ColdAtCommit: true, DirtyEvery: 40}
 	cc.CommitEvery = ops / 4
 	cc.EvictEvery = 2
+	cc.DrainAtEnd = true
 	cc.PerOp = func(w *World, root *Node) error {
 		if w.st.OpGenerates+w.st.OpRemoves > 0 && w.opCount%16 != 0 {
 			return w.CheckTree(true)
@@ -392,8 +394,20 @@ func bytesCase(c *CaseCtx, salt int64) *ContCase {
 	return cc
 }
 
+// batchFinal: last step of a byte-level case (the world is discarded afterwards)
+func batchFinal(w *World, root *Node, res *CaseResult) {
+	if err := w.batchBytes(4); err != nil {
+		if v, ok := err.(*Violation); ok {
+			res.fail(v)
+		} else {
+			res.fail(viol("harness", "%v", err))
+		}
+	}
+}
+
 func runC06(c *CaseCtx) *CaseResult {
 	cc := bytesCase(c, 0xc06)
+	cc.Final = batchFinal
 	res, w, _ := runContainerCase(c, cc)
 	s := w.stats
 	res.NonTrivial = s.Extra["bytes-slabs"] > 50 && s.Extra["bytes-nonroot"] > 0 && (s.Extra["bytes-compact-eq"] > 0 || s.Extra["bytes-groups"] > 0) && s.InlineToStand+s.StandToInline > 0
@@ -428,6 +442,7 @@ func runC07(c *CaseCtx) *CaseResult {
 		}
 		return nil
 	}
+	cc.Final = batchFinal
 	res, w, _ := runContainerCase(c, cc)
 	s := w.stats
 	res.NonTrivial = s.RegsChecked > 20 && (s.Extra["bytes-compact-eq"] > 1 || s.Extra["bytes-groups"] > 0 || s.Tree.InlinedSlabs > 1 || s.CompactSeen > 0)
@@ -956,7 +971,7 @@ func init() {
 			"len(register) - extra data item - inlined extra data item (+16 for an omitted sibling link) + exact compact saving must EQUAL the reported size; every inline element re-encoded alone; decoded size == live size; all registers re-checked at commits. " +
 			"non-trivial = >50 slabs byte-checked incl. non-root ones, a compact map or collision group checked by equality, and an inline<->standalone flip; distinct by hash(config, operation list)",
 		Assumptions: []string{"register sections are split with an independent CBOR stream decoder", "exploration, not proof"},
-		Mandatory:   []string{"bytes-slabs", "bytes-compact-eq", "bytes-groups", "bytes-no-next", "registers_checked"},
+		Mandatory:   []string{"bytes-slabs", "bytes-compact-eq", "bytes-groups", "bytes-no-next", "registers_checked", "bytes-batch-built-containers"},
 	})
 	register(&Prop{
 		ID: "C07", Level: "exploration", Run: runC07, Cases: cases(16*48, 16*200), MinNonTrivial: 8,
@@ -964,7 +979,7 @@ func init() {
 			"for every dirtied slab after every operation and every register at commits: Encode(Decode(R)) == R byte-for-byte, decoded content == live content (compact maps: key->value content), head flags (root, has-references, size-limited, has-next) == independently computed truth; in-repo serialization verifiers as secondary oracle. " +
 			"non-trivial = >20 registers checked and a compact pair, a collision group or >1 inlined child present; distinct by hash(config, operation list)",
 		Assumptions: []string{"only format version 1 registers are produced by the library under test", "exploration, not proof"},
-		Mandatory:   []string{"bytes-slabs", "registers_checked", "inrepo-serialization-verifies"},
+		Mandatory:   []string{"bytes-slabs", "registers_checked", "inrepo-serialization-verifies", "bytes-batch-built-containers"},
 	})
 	register(&Prop{
 		ID: "C09", Level: "exploration", Run: runC09, Cases: cases(16*36, 16*200), MinNonTrivial: 8,
